@@ -198,6 +198,36 @@ def hook_raises(e: int) -> bool:
     return ok and again == FULL and w.get_skipped() == FULL_SKIPPED and w.resets >= 2
 
 
+def raise_then_kill(e: int, how: int) -> bool:
+    """
+    The e-th hook invocation raises and kill() arrives at that moment: from on_error itself (how=0), or from the consumer when it
+    receives the value on_error returned (how=1).  The file being processed is still completed: routed to on_skip, counted as skipped.
+    pre: 0 <= e <= 40 and 0 <= how <= 1
+    post: _
+    """
+    if e >= NHOOKS or FULL_LOG[e][0] != 'vf':
+        return True
+    name = FULL_LOG[e][1]
+    w = K(ROOT, '*.txt', None, FLAGS, e=e, k=(e + 1 if how == 0 else -1))
+    got = []
+    for item in w.imatch():
+        got.append(item)
+        if how == 1 and item == ('err', name):
+            w.kill()
+            w.kill_at = ('err', name)
+    if not w.is_aborted():
+        return False
+    routed = [h for h, n in w.log if n == name and h in ('m', 's')]
+    ok = routed == ['s'] and ('err', name) in w.log
+    prior_skips = sum(1 for h, n in w.log if h == 's')
+    ok = ok and w.get_skipped() == prior_skips
+    ok = ok and not any(h in ('vf', 'vd') for h, n in w.after_kill)           # no further file or directory is visited
+    w.e = -1
+    w.k = -1
+    w.reset()
+    return ok and w.match() == FULL and w.get_skipped() == FULL_SKIPPED
+
+
 def kill_and_poll(k: int, j: int) -> bool:
     """
     Both a hook kill and a poll flip in one run; repeated runs of one object give identical sequences.
@@ -224,18 +254,24 @@ def _run_ops(ops):
     pos = 0              # how many results the live generator has produced
     for op in ops:
         if op == 0:                      # match()
+            r0 = w.resets
             got = w.match()
             if got != ([] if aborted else FULL):
                 return False
-            if not aborted and w.get_skipped() != FULL_SKIPPED:
+            # every run - also one made while the object is aborted - calls on_reset once and restarts the skipped counter
+            if w.resets != r0 + 1 or w.get_skipped() != (0 if aborted else FULL_SKIPPED):
                 return False
             it = None
         elif op == 1:                    # one step of imatch (a fresh generator if none is live)
+            fresh = it is None
+            r0 = w.resets
             if it is None:
                 it = w.imatch()
                 pos = 0
             try:
                 val = next(it)
+                if fresh and w.resets != r0 + 1:
+                    return False
                 if aborted or pos >= len(FULL) or val != FULL[pos]:
                     return False
                 pos += 1
